@@ -79,32 +79,49 @@ def sel_key(text):
 
 
 def output_model(out_text):
-    """{selector key: [(declaration list, at-rule path) in document order]}, custom property table (:root wins over html)."""
+    """{selector key: [(declaration list, at-rule path) in document order]}, custom property table as the cascade resolves it:
+    importance first (!important beats plain), then specificity (:root beats html), then order (the last one wins)."""
     rules = css_tokens.find_rules(out_text)
-    defs_html, defs_root = {}, {}
+    best = {}
     by_sel = {}
     for sel, decls, path, key in rules:
         by_sel.setdefault(key, []).append((decls, path))
         if sel in (":root", "html"):
             for d in decls:
                 if d[0] == "decl" and d[1].startswith("--"):
-                    (defs_root if sel == ":root" else defs_html)[d[1]] = css_tokens.serialize_value(d[2])
-    defs = dict(defs_html)
-    defs.update(defs_root)
-    return by_sel, defs
+                    rank = (bool(d[3]), sel == ":root")
+                    if d[1] not in best or rank >= best[d[1]][0]:
+                        best[d[1]] = (rank, css_tokens.serialize_value(d[2]))
+    return by_sel, {k: v[1] for k, v in best.items()}
 
 
 def last_decl(decls, prop):
+    """The declaration of `prop` that wins the cascade inside one rule: the last !important one, else the last one."""
     v = None
     for d in decls:
-        if d[0] == "decl" and d[1].lower() == prop:
+        if d[0] == "decl" and d[1].lower() == prop and (v is None or d[3] or not v[3]):
             v = d
     return v
 
 
+_L4 = re.compile(r"^(rgb|hsl)a?\(\s*([^\s,/()]+)[\s,]+([^\s,/()]+)[\s,]+([^\s,/()]+)\s*(?:[,/]\s*([^\s,/()]+)\s*)?\)$", re.I)
+
+
+def level3_spelling(text):
+    """CSS Color 4 made rgb()/rgba() and hsl()/hsla() aliases and added the 'r g b / a' syntax; the reference parser is
+    Level 3, so such a value is rewritten to its Level 3 spelling first (anything else is returned unchanged)."""
+    m = _L4.match(text.strip())
+    if not m or css_color.parse(text, allow_bare_hex=False) is not None:
+        return text
+    fn, a, b, c, alpha = m.groups()
+    if alpha is None:
+        return "%s(%s, %s, %s)" % (fn.lower(), a, b, c)
+    return "%sa(%s, %s, %s, %s)" % (fn.lower(), a, b, c, alpha)
+
+
 def colour_key(text):
     """Comparable value of a CSS colour string (exact rationals), or None."""
-    return css_color.parse(text, allow_bare_hex=False) if isinstance(text, str) else None
+    return css_color.parse(level3_spelling(text), allow_bare_hex=False) if isinstance(text, str) else None
 
 
 def opaque_rgb(text, over=None):
